@@ -102,7 +102,8 @@ def one_schedule(scn, first, k1, k2, k3=None):
             if m:
                 mt = re.search(r"\btn=(\d+)", m.group(3))
                 log.append(dict(e="stale", id=int(mt.group(1))))
-            elif os.path.basename(rec.pathname or "") == "transceiver.py":
+            elif os.path.basename(rec.pathname or "") == "transceiver.py" and threading.current_thread().name == "clk":
+                # (emitted by the clock thread: the socket thread's "not running" warning is no report)
                 # the wording is the maintainer's: a warning of the transceiver that names a burst is the report
                 tns = re.findall(r"\btn=(\d+)", msg)
                 if tns:
